@@ -26,9 +26,14 @@ var work = filepath.Join(vlib.VerifDir, ".work", "c13")
 type scripted struct{ ts []*sdf.Triangle3 }
 
 func (s scripted) Render(_ sdf.SDF3, out sdf.Triangle3Writer) {
-	// batches of 0..5 triangles like a marching cubes renderer
-	for i := 0; i < len(s.ts); {
+	// batches of 0..5 triangles like a marching cubes renderer; long lists mix these with writes beyond the
+	// buffer's flush threshold (3, 260, 127, 5, 300, 1, ...)
+	big := []int{3, 260, 127, 5, 300, 1, 256, 2}
+	for i, k := 0, 0; i < len(s.ts); k++ {
 		n := 1 + i%5
+		if len(s.ts) >= 300 {
+			n = big[k%len(big)]
+		}
 		if i+n > len(s.ts) {
 			n = len(s.ts) - i
 		}
@@ -335,6 +340,39 @@ func main() {
 	}
 	samples = append(samples, map[string]any{"histories": "sizes [300 3 0 1], [1 300 2], [82 81] written to the same path by SaveSTL / ToSTL / alternating"})
 
+	// (3b) a binary file of more than 2^20 triangles (about 52 MB) written by SaveSTL and read back: every triangle
+	{
+		n := 1<<20 + 1
+		ts := make([]*sdf.Triangle3, n)
+		for i := range ts {
+			f := float64(i % 4096)
+			g := float64(i / 4096)
+			ts[i] = &sdf.Triangle3{{X: f, Y: g, Z: 0}, {X: f + 1, Y: g, Z: 0}, {X: f, Y: g + 1, Z: 0.5}}
+		}
+		p := filepath.Join(work, "big.stl")
+		desc := map[string]any{"triangles": n}
+		states++
+		if err := render.SaveSTL(p, ts); err != nil {
+			c.Violation("SaveSTL|error|big", err.Error(), desc)
+		} else {
+			fi, _ := os.Stat(p)
+			got, err := render.LoadSTL(p)
+			if fi == nil || fi.Size() != int64(84+50*n) {
+				c.Violation("SaveSTL|size|big", fmt.Sprintf("file of %d triangles has the wrong size", n), desc)
+			} else if err != nil || len(got) != n {
+				c.Violation("LoadSTL|round-trip-count|more-than-2^20-triangles", fmt.Sprintf("a well-formed binary file of %d triangles loads as %d triangles (error %v)", n, len(got), err), desc)
+			} else {
+				for i := range got {
+					if *got[i] != *ts[i] {
+						c.Violation("LoadSTL|round-trip-vertex|more-than-2^20-triangles", fmt.Sprintf("triangle %d of %d loads as %v, written %v", i, n, *got[i], *ts[i]), desc)
+						break
+					}
+				}
+				trans += int64(n)
+			}
+		}
+		os.Remove(p)
+	}
 	// (4) reference ASCII files
 	type asc struct {
 		name string
